@@ -149,7 +149,7 @@ pub fn run(seed: u64, count: usize, outdir: &str, tier_budgets: &[usize]) -> std
         for (p, sk) in points.iter().zip(&skip) {
             write!(line, " {} {}", *sk as u8, fmt_bits(p)).unwrap();
         }
-        write!(line, " {}", orc.fmt()).unwrap();
+        write!(line, " 0").unwrap(); // libm: the runner calls the same glibc functions (extract/libm_stubs.c)
         cases.push_str(&line); cases.push('\n');
 
         // ---- implementation
